@@ -410,28 +410,8 @@ func (d *detAnalyzer) isTotalSort(st ast.Stmt, obj types.Object) (bool, string) 
 		if len(params) != 2 || len(lit.Body.List) == 0 {
 			return false, "unexpected comparator shape"
 		}
-		ret, ok := lit.Body.List[len(lit.Body.List)-1].(*ast.ReturnStmt)
-		if !ok || len(ret.Results) != 1 {
-			return false, "comparator does not end in a return of a comparison"
-		}
-		be, ok := unparen(ret.Results[0]).(*ast.BinaryExpr)
-		if !ok || (be.Op != token.LSS && be.Op != token.GTR) {
-			return false, "the comparator's final result is not a strict comparison of the two elements themselves (no total tie-break)"
-		}
-		isElem := func(e ast.Expr, p types.Object) bool {
-			ix, ok := unparen(e).(*ast.IndexExpr)
-			if !ok {
-				return false
-			}
-			x, ok1 := unparen(ix.X).(*ast.Ident)
-			k, ok2 := unparen(ix.Index).(*ast.Ident)
-			return ok1 && ok2 && d.info.ObjectOf(x) == obj && d.info.ObjectOf(k) == p
-		}
-		if !(isElem(be.X, params[0]) && isElem(be.Y, params[1])) {
-			return false, "the comparator's final tie-break does not compare the elements themselves (" + types.ExprString(ret.Results[0]) + "), so elements with equal keys keep map iteration order"
-		}
-		if bt, ok := d.info.TypeOf(be.X).Underlying().(*types.Basic); !ok || bt.Info()&types.IsOrdered == 0 {
-			return false, "element type is not an ordered basic type"
+		if ok, why := d.totalComparator(lit, params, obj); !ok {
+			return false, why
 		}
 		return true, full + " with final tie-break on the element itself"
 	}
@@ -692,7 +672,7 @@ func (b *bodyClass) stmt(s ast.Stmt) {
 			b.expr(s.X)
 		}
 	case *ast.IfStmt:
-		if b.firstIdiom(s) {
+		if b.firstIdiom(s) || b.firstIdiom(swapNegatedIf(s)) {
 			return
 		}
 		b.stmt(s.Init)
@@ -717,6 +697,10 @@ func (b *bodyClass) stmt(s ast.Stmt) {
 		b.block(s.Body.List, false)
 		b.loopDepth--
 	case *ast.SwitchStmt:
+		if chain := switchAsIfChain(s); chain != nil {
+			b.stmt(chain)
+			return
+		}
 		b.stmt(s.Init)
 		if s.Tag != nil {
 			b.expr(s.Tag)
@@ -1052,4 +1036,290 @@ func (b *bodyClass) callExpr(call *ast.CallExpr, stmt bool) {
 		}
 	}
 	b.problem(call.Pos(), "call of %s, which %s", f.FullName(), eff.String())
+}
+
+// totalComparator decides, by a decision table, whether less(i, j) is a strict total order on
+// distinct elements: the comparisons of the comparator are grouped into pairs (the elements
+// themselves, and any number of keys derived from them); for every combination of outcomes
+// (<, =, >) of these pairs the comparator is evaluated for (i, j) and for the mirrored
+// combination, and exactly one of the two must be true unless every pair is equal.  The form of
+// the comparator (if chains, inverted tests, hoisted locals) does not matter.
+func (d *detAnalyzer) totalComparator(lit *ast.FuncLit, params []types.Object, slice types.Object) (bool, string) {
+	defs := map[types.Object]ast.Expr{}
+	ast.Inspect(lit.Body, func(n ast.Node) bool {
+		if as, ok := n.(*ast.AssignStmt); ok && as.Tok == token.DEFINE && len(as.Lhs) == len(as.Rhs) {
+			for k, l := range as.Lhs {
+				if id, ok := l.(*ast.Ident); ok {
+					defs[d.info.Defs[id]] = as.Rhs[k]
+				}
+			}
+		}
+		return true
+	})
+	var resolve func(e ast.Expr, depth int) ast.Expr
+	resolve = func(e ast.Expr, depth int) ast.Expr {
+		e = unparen(e)
+		if id, ok := e.(*ast.Ident); ok && depth < 4 {
+			if r, ok := defs[d.info.ObjectOf(id)]; ok {
+				return resolve(r, depth+1)
+			}
+		}
+		return e
+	}
+	// side: 0 mentions only the first parameter, 1 only the second, -1 otherwise; key: the
+	// expression with the parameter abstracted
+	describe := func(e ast.Expr) (side int, key string, isElem bool) {
+		r := resolve(e, 0)
+		uses := [2]bool{}
+		var render func(n ast.Expr) string
+		render = func(n ast.Expr) string {
+			n = resolve(n, 0)
+			switch x := n.(type) {
+			case *ast.Ident:
+				o := d.info.ObjectOf(x)
+				if o == params[0] {
+					uses[0] = true
+					return "·"
+				}
+				if o == params[1] {
+					uses[1] = true
+					return "·"
+				}
+				return x.Name
+			case *ast.IndexExpr:
+				return render(x.X) + "[" + render(x.Index) + "]"
+			case *ast.SelectorExpr:
+				return render(x.X) + "." + x.Sel.Name
+			case *ast.CallExpr:
+				s := types.ExprString(x.Fun) + "("
+				for _, a := range x.Args {
+					s += render(a) + ","
+				}
+				return s + ")"
+			}
+			return types.ExprString(n)
+		}
+		key = render(r)
+		switch {
+		case uses[0] && !uses[1]:
+			side = 0
+		case uses[1] && !uses[0]:
+			side = 1
+		default:
+			side = -1
+		}
+		if ix, ok := r.(*ast.IndexExpr); ok {
+			x, ok1 := unparen(ix.X).(*ast.Ident)
+			k, ok2 := unparen(ix.Index).(*ast.Ident)
+			if ok1 && ok2 && d.info.ObjectOf(x) == slice && (d.info.ObjectOf(k) == params[0] || d.info.ObjectOf(k) == params[1]) {
+				isElem = true
+			}
+		}
+		return
+	}
+	// discover the pairs
+	var keys []string
+	elemKey := ""
+	seen := map[string]bool{}
+	ast.Inspect(lit.Body, func(n ast.Node) bool {
+		be, ok := n.(*ast.BinaryExpr)
+		if !ok {
+			return true
+		}
+		switch be.Op {
+		case token.LSS, token.GTR, token.LEQ, token.GEQ, token.EQL, token.NEQ:
+		default:
+			return true
+		}
+		sx, kx, ex := describe(be.X)
+		sy, ky, ey := describe(be.Y)
+		if sx < 0 || sy < 0 || sx == sy || kx != ky {
+			return true
+		}
+		if !seen[kx] {
+			seen[kx] = true
+			keys = append(keys, kx)
+		}
+		if ex && ey {
+			elemKey = kx
+		}
+		return true
+	})
+	if elemKey == "" {
+		return false, "the comparator never compares the elements themselves, so elements with equal keys keep map iteration order"
+	}
+	if len(keys) > 4 {
+		return false, "comparator too complex to tabulate"
+	}
+	if bt, ok := slice.Type().Underlying().(*types.Slice); ok {
+		if b, ok := bt.Elem().Underlying().(*types.Basic); !ok || b.Info()&types.IsOrdered == 0 {
+			return false, "element type is not an ordered basic type"
+		}
+	}
+	eval := func(rel map[string]int) (bool, bool) {
+		env := &aenv{info: d.info, vars: map[types.Object]aval{}}
+		env.hook = func(e ast.Expr) (aval, bool) {
+			be, ok := unparen(e).(*ast.BinaryExpr)
+			if !ok {
+				return aval{}, false
+			}
+			sx, kx, _ := describe(be.X)
+			sy, ky, _ := describe(be.Y)
+			if sx < 0 || sy < 0 || sx == sy || kx != ky {
+				return aval{}, false
+			}
+			r, ok := rel[kx]
+			if !ok {
+				return aval{}, false
+			}
+			if sx == 1 { // operands written as (j, i)
+				r = -r
+			}
+			var v bool
+			switch be.Op {
+			case token.LSS:
+				v = r < 0
+			case token.GTR:
+				v = r > 0
+			case token.LEQ:
+				v = r <= 0
+			case token.GEQ:
+				v = r >= 0
+			case token.EQL:
+				v = r == 0
+			case token.NEQ:
+				v = r != 0
+			default:
+				return aval{}, false
+			}
+			return aval{isBool: true, b: v}, true
+		}
+		var out outcome
+		ok := false
+		func() {
+			defer func() {
+				if r := recover(); r != nil {
+					if _, isE := r.(evalErr); !isE {
+						panic(r)
+					}
+				}
+			}()
+			if env.run(lit.Body.List, true, &out) && out.kind == "return" && len(out.vals) == 1 && out.vals[0].isBool {
+				ok = true
+			}
+		}()
+		if !ok {
+			return false, false
+		}
+		return out.vals[0].b, true
+	}
+	n := len(keys)
+	total := 1
+	for k := 0; k < n; k++ {
+		total *= 3
+	}
+	for cell := 0; cell < total; cell++ {
+		rel, mir := map[string]int{}, map[string]int{}
+		allEq := true
+		x := cell
+		for _, k := range keys {
+			r := x%3 - 1
+			x /= 3
+			rel[k], mir[k] = r, -r
+			if r != 0 {
+				allEq = false
+			}
+		}
+		if rel[elemKey] == 0 && !allEq {
+			continue // equal elements have equal keys
+		}
+		a, ok1 := eval(rel)
+		b, ok2 := eval(mir)
+		if !ok1 || !ok2 {
+			return false, "the comparator is not pure comparison code over its two elements (not decidable)"
+		}
+		if allEq {
+			if a {
+				return false, "the comparator calls an element less than itself"
+			}
+			continue
+		}
+		if a == b {
+			return false, fmt.Sprintf("the order is not total: for two different elements with key relations %v neither (or both) is less than the other, so their relative order is whatever the map iteration produced", rel)
+		}
+	}
+	return true, ""
+}
+
+// switchAsIfChain rewrites a tagless switch without init, fallthrough or unlabelled break as the
+// equivalent if / else-if chain (the two spellings are the same program), so that the idioms
+// recognised on if statements are recognised on switches as well.  It returns nil if the switch
+// is not of that simple kind.
+func switchAsIfChain(s *ast.SwitchStmt) ast.Stmt {
+	if s.Tag != nil || s.Init != nil {
+		return nil
+	}
+	simple := true
+	var def *ast.CaseClause
+	var cases []*ast.CaseClause
+	for _, cc := range s.Body.List {
+		cl := cc.(*ast.CaseClause)
+		ast.Inspect(cl, func(n ast.Node) bool {
+			switch x := n.(type) {
+			case *ast.BranchStmt:
+				if x.Tok == token.FALLTHROUGH || (x.Tok == token.BREAK && x.Label == nil) {
+					simple = false
+				}
+			case *ast.ForStmt, *ast.RangeStmt, *ast.SwitchStmt, *ast.TypeSwitchStmt, *ast.SelectStmt, *ast.FuncLit:
+				if n != ast.Node(cl) {
+					return false // a break in there belongs to the inner statement
+				}
+			}
+			return true
+		})
+		if cl.List == nil {
+			def = cl
+		} else {
+			cases = append(cases, cl)
+		}
+	}
+	if !simple {
+		return nil
+	}
+	if def != nil && len(s.Body.List) > 0 && s.Body.List[len(s.Body.List)-1] != ast.Stmt(def) {
+		// a default in the middle is still evaluated last; fine
+	}
+	var tail ast.Stmt
+	if def != nil {
+		tail = &ast.BlockStmt{Lbrace: def.Pos(), List: def.Body, Rbrace: def.End()}
+	}
+	for k := len(cases) - 1; k >= 0; k-- {
+		cl := cases[k]
+		var cond ast.Expr
+		for _, e := range cl.List {
+			if cond == nil {
+				cond = e
+			} else {
+				cond = &ast.BinaryExpr{X: cond, Op: token.LOR, Y: e, OpPos: e.Pos()}
+			}
+		}
+		tail = &ast.IfStmt{If: cl.Pos(), Cond: cond, Body: &ast.BlockStmt{Lbrace: cl.Colon, List: cl.Body, Rbrace: cl.End()}, Else: tail}
+	}
+	if tail == nil {
+		return &ast.EmptyStmt{}
+	}
+	return tail
+}
+
+// swapNegatedIf turns `if !c { A } else { B }` into `if c { B } else { A }`.
+func swapNegatedIf(s *ast.IfStmt) *ast.IfStmt {
+	u, ok := unparen(s.Cond).(*ast.UnaryExpr)
+	if !ok || u.Op != token.NOT {
+		return s
+	}
+	els, ok := s.Else.(*ast.BlockStmt)
+	if !ok {
+		return s
+	}
+	return &ast.IfStmt{If: s.If, Init: s.Init, Cond: u.X, Body: els, Else: s.Body}
 }
